@@ -28,7 +28,7 @@ def _hex(b):
 
 def _pretty(c):
     """A case / record with byte strings in hex and ASCII strings as text (for the evidence file)."""
-    asc = ("h1", "tok", "ra") + (("a", "b", "out") if c.get("k") in ("cmp", "cmpk", "h1", "m3", "rnd") else ())
+    asc = ("h1", "tok", "ra") + (("a", "b", "out", "out2") if c.get("k") in ("cmp", "cmpk", "h1", "m3", "rnd") else ())
     d = {}
     for x, v in c.items():
         if x in ("vfn", "i", "panic"):
@@ -58,10 +58,19 @@ def _summary(out, what):
 
 # ------------------------------------------------------------------ classification of a mismatch
 
-def _vkey(rec, variant=None):
+def _held_changed(rec, exp):
+    """The value was right when returned and wrong when read again later (it is still held)."""
+    return "out2" in rec and isinstance(exp, list) and rec.get("out") == exp and rec["out2"] != exp and not rec.get("err")
+
+
+def _vkey(rec, variant=None, exp=None):
     k = rec["k"]
     if rec.get("panic"):
         return "%s-panic" % k
+    if _held_changed(rec, exp):
+        if k == "rk":
+            return "routing-key-%s-%dcomp-changed-while-held" % (rec["via"], len(rec["idx"]))
+        return "%s-token-changed-while-held" % k
     if k == "h1":
         return "murmur3-h1-%s-tail%d" % (variant or "x", len(rec["key"]) % 16)
     if k == "m3":
@@ -87,6 +96,13 @@ def _describe(rec, exp):
     k = rec["k"]
     if rec.get("panic"):
         return "%s: the real code panicked: %s (input %s)" % (k, rec["panic"], json.dumps({x: rec[x] for x in rec if x in ("key", "a", "b", "vals", "idx")})[:300])
+    if _held_changed(rec, exp):
+        shown = (_hex if k == "rk" else _s)
+        return ("%s: the value returned for %s was %s (as required); still held by the caller it read %s after later calls "
+                "produced keys/tokens for other inputs" % (
+                    ("routing key via " + rec["via"]) if k == "rk" else k + " token",
+                    json.dumps(rec["vals"])[:200] + " idx " + str(rec["idx"]) if k == "rk" else _hex(rec["key"]),
+                    shown(rec["out"]), shown(rec["out2"])))
     if k in ("h1", "m3"):
         return "%s of key %s (len %d): code %s, Cassandra %s" % (
             "Murmur3H1" if k == "h1" else "Murmur3Partitioner token", _hex(rec["key"]), len(rec["key"]), _s(rec["out"]), _s(exp))
@@ -175,6 +191,7 @@ def run(ctx):
     stride = 8 if quick else 1
     nrec_murmur = 1200 if quick else 30000
     nrec_token = 2500 if quick else 60000
+    nconc = 60 if quick else 1500          # per goroutine and phase (8 goroutines, 2 phases)
 
     # ---- 1. generators (the ASSUMEd published vectors of Token.tla are checked by every TLC start)
     jobs = [("MC_Token_keys.cfg", dict(VF_SHARD=i, VF_NSHARD=nproc, VF_STRIDE=stride, VF_SEED=ctx.seed), "gen_keys_%d" % i)
@@ -208,7 +225,7 @@ def run(ctx):
     mism = []          # (key, description, detail)
 
     def judge(rec, exp, variant=None):
-        mism.append((_vkey(rec, variant), _describe(rec, exp), dict(record=rec, required=exp, variant=variant)))
+        mism.append((_vkey(rec, variant, exp), _describe(rec, exp), dict(record=rec, required=exp, variant=variant)))
 
     # ---- 3. spec -> code: murmur package, both getBlock variants
     for variant, b in bins.items():
@@ -242,9 +259,9 @@ def run(ctx):
             inputs.add(_input_id(r))
         k = r["k"]
         if k == "m3":
-            ok, exp = r["out"] == c["tok"], c["tok"]
+            ok, exp = (r["out"] == c["tok"] and r["out2"] == c["tok"]), c["tok"]
         elif k == "rk":
-            ok, exp = (r["err"] == "" and r["out"] == c["out"]), c["out"]
+            ok, exp = (r["err"] == "" and r["out"] == c["out"] and r["out2"] == c["out"]), c["out"]
         elif k == "cmp":
             ok, exp = r["less"] == c["less"], c["less"]
             if ok and not r["panic"] and r["ra"] != c["a"]:
@@ -282,6 +299,13 @@ def run(ctx):
     rc, out = vf.run_gotest(ctx, gbin, "^TestVfC09TokenRecord$", env={"VF_VECTORS": p, "VF_N": nrec_token})
     _summary(out, "token record")
     tagged += [(r, None) for r in vf.read_ndjson(p)]
+    p = os.path.join(ctx.tmp, "vec_conc.ndjson")
+    rc, out = vf.run_gotest(ctx, gbin, "^TestVfC09TokenConcurrent$", env={"VF_VECTORS": p, "VF_G": 8, "VF_M": nconc})
+    _summary(out, "token concurrent")
+    conc = vf.read_ndjson(p)
+    if len(conc) != 2 * 8 * nconc:
+        raise vf.Inconclusive("concurrent routing-key driver recorded %d of %d observations" % (len(conc), 2 * 8 * nconc))
+    tagged += [(r, None) for r in conc]
     if len(tagged) < 100:
         raise vf.Inconclusive("only %d recorded vectors" % len(tagged))
     for n, (r, variant) in enumerate(tagged):
@@ -319,10 +343,14 @@ def run(ctx):
         rule="distinct (kind, input) tuples executed on the real code and compared with the value Token.tla requires; "
              "empty keys and comparisons of a value with itself are not counted; empty partition keys are excluded at the partitioner level",
         generated_cases=bykind, generator_states=gen_states, recorded_vectors=vk,
+        held_values="every routing key / token returned by the real code is held and read again after >= %d later calls "
+                    "(sequential) or after yielding to 7 other goroutines (%d concurrent observations)" % (8, len(conc)),
         murmur_tail_block_classes_covered=len(tails), mismatching_classes=sorted(byk.keys()),
         samples=samples[:6],
     )
     ctx.assumptions += [
+        "a routing key is judged while the harness holds it like a caller does (until it is hashed); the hold window is 8 later "
+        "calls sequentially and 1-3 scheduler yields concurrently",
         "crypto/md5 is trusted: the digest is handed to the specification, which does the signed interpretation and abs()",
         "value encodings of routing-key components are exercised for blob/text/int/bigint/boolean/uuid only (C12 owns encodings)",
         "bounded: key lengths <= 47 exhaustive pattern family (one deviating byte over 5 byte classes), random keys up to 200 bytes",
